@@ -7,4 +7,4 @@ Extraction "../extract/C04/model.ml" isBasisValid_rep isBasisValid isDescValid l
   setBasis getBasis mark_fixed zero_only_free
   sp_setBasis sp_hasBasis sp_getBasis sp_rowStatus sp_colStatus sp_getBasisInd
   writeBasis writeBasisOutside readBasis readBasisFile readBasisFile_intended writeBasisFile writeBasisFileOutside
-  default_names accum_names free_ok removed_rows removed_cols.
+  default_names accum_names free_ok removed_rows removed_cols added_rows added_cols removed_row removed_col.
